@@ -549,14 +549,14 @@ void body(V::Ctx &ctx)
         plans.push_back({2, 1, all, 1, true, 2});        // every pair of operations, fine-grained steps
         plans.push_back({2, 1, all, 2, false, 2});       // ... and one more preemption at atomic-operation granularity
         plans.push_back({2, 2, "xrdu", 1, true, 1});     // two operations per process
-        plans.push_back({3, 1, "xrdu", 2, false, 1});    // three processes
+        plans.push_back({3, 1, "xrd", 2, false, 1});     // three processes (updates among three: thorough tier)
     } else {
         plans.push_back({2, 1, all, 2, true, 2});
         plans.push_back({2, 1, all, 3, false, 2});
         plans.push_back({2, 2, "axrdubq", 1, true, 1});
         plans.push_back({2, 2, few, 2, false, 1});
-        plans.push_back({3, 1, all, 2, false, 1});
-        plans.push_back({3, 1, "ardu", 3, false, 1});
+        plans.push_back({3, 1, "axbrduv", 2, false, 1});
+        plans.push_back({3, 1, "rdu", 3, false, 1});
     }
     const char *only = getenv("C55_ONLY_PLAN");          // measurement aid
 
